@@ -91,6 +91,10 @@ type layout struct {
 	src    []byte
 	toks   []Tok
 	ranges [][2]int
+	// bom is the length of a leading byte order mark (0 or 3). The scanner
+	// skips it without producing a token; it is not part of the gap before
+	// the first token, so gap deviations keep it.
+	bom int
 }
 
 func newLayout(src string) (*layout, bool) {
@@ -99,14 +103,18 @@ func newLayout(src string) (*layout, bool) {
 	if !ok {
 		return nil, false
 	}
-	return &layout{src: b, toks: t, ranges: r}, true
+	l := &layout{src: b, toks: t, ranges: r}
+	if strings.HasPrefix(src, BOM) {
+		l.bom = len(BOM)
+	}
+	return l, true
 }
 
 func (l *layout) gapCount() int { return len(l.toks) }
 
 // gapText returns the current text of gap g (the bytes before token g).
 func (l *layout) gapText(g int) string {
-	start := 0
+	start := l.bom
 	if g > 0 {
 		start = l.ranges[g-1][1]
 	}
@@ -119,7 +127,8 @@ func (l *layout) apply(edits []edit) ([]byte, []Tok) {
 	var buf bytes.Buffer
 	want := make([]Tok, 0, len(l.toks)+2*len(edits))
 	ei := 0
-	prevEnd := 0
+	prevEnd := l.bom
+	buf.Write(l.src[:l.bom])
 	for g := range l.toks {
 		if ei < len(edits) && edits[ei].gap == g {
 			buf.WriteString(GapAlphabet[edits[ei].alt].Text)
@@ -175,6 +184,9 @@ const (
 // Plan is the finite product a tier enumerates.
 type Plan struct {
 	A, ACRLF, B, BCRLF Depth
+	// C, CTwin: depth of part (c) (file shapes: degenerate files, file
+	// endings) and of its CRLF / BOM / BOM+CRLF twins.
+	C, CTwin Depth
 	// BReduced: part (b) uses only the gap texts {none, space, newline,
 	// /*c*/, #c<nl>} (two spaces, tab and the // comment are explored on part
 	// (a) only).
@@ -194,9 +206,9 @@ var fullAlphabet = func() []int {
 
 func PlanFor(tier string) Plan {
 	if tier == "thorough" {
-		return Plan{A: AllPairs, ACRLF: AllPairs, B: AdjacentPair, BCRLF: AdjacentPair}
+		return Plan{A: AllPairs, ACRLF: AllPairs, B: AdjacentPair, BCRLF: AdjacentPair, C: AllPairs, CTwin: AdjacentPair}
 	}
-	return Plan{A: AdjacentPair, ACRLF: Single, B: Single, BCRLF: BaseOnly, BReduced: true}
+	return Plan{A: AdjacentPair, ACRLF: Single, B: Single, BCRLF: BaseOnly, BReduced: true, C: Single, CTwin: BaseOnly}
 }
 
 func (p Plan) String() string {
@@ -205,7 +217,7 @@ func (p Plan) String() string {
 	if p.BReduced {
 		alpha = " over the gap texts {none, space, newline, /*c*/, #c<nl>} only"
 	}
-	return fmt.Sprintf("part (a): %s (CRLF twin: %s); part (b): %s%s (CRLF twin: %s)", n[p.A], n[p.ACRLF], n[p.B], alpha, n[p.BCRLF])
+	return fmt.Sprintf("part (a): %s (CRLF twin: %s); part (b): %s%s (CRLF twin: %s); part (c): %s%s (CRLF, BOM and BOM+CRLF twins: %s)", n[p.A], n[p.ACRLF], n[p.B], alpha, n[p.BCRLF], n[p.C], alpha, n[p.CTwin])
 }
 
 // Stats counts what Enumerate produced (for the evidence file).
@@ -226,7 +238,8 @@ func Validate() []string {
 }
 
 // Enumerate emits the whole space of the tier, deterministically and simplest
-// first: part (a) bases in list order, then part (b) in shape-major order;
+// first: part (a) bases in list order, then part (b) in shape-major order,
+// then part (c) (file shapes) in product order;
 // for each base the base itself, then single-gap deviations in gap order, then
 // pair deviations by increasing distance of the two gaps; the CRLF twin of a
 // base follows the base. Duplicates (same bytes) within one base are emitted
@@ -260,6 +273,13 @@ func Enumerate(tier string, emit func(Entry) bool) Stats {
 	}
 	for _, b := range ExprBases() {
 		add(b, plan.B, plan.BCRLF, balpha)
+	}
+	// part (c): file shapes, each followed by its CRLF / BOM / BOM+CRLF twins
+	for _, b := range FileShapeBases() {
+		jobs = append(jobs, job{b.Part + "/" + b.Name, b.Name, b.Src, plan.C, false, balpha})
+		for _, tw := range fileShapeTwins(b) {
+			jobs = append(jobs, job{b.Part + "/" + b.Name + tw.suffix, b.Name, tw.src, plan.CTwin, true, balpha})
+		}
 	}
 
 	type result struct {
